@@ -111,7 +111,7 @@ theorem walk_sim (hw : w.WF) (cfg : Opath.WalkCfg) (hroot : cfg.root = w.root)
     by_cases hcr : st.cur = w.root
     · rw [hcr] at hc
       have ho : Prog.run w (Sys.openat w.root Path.dot (O_PATH ||| O_NOFOLLOW) 0) = .ok w.root := by
-        rw [run_openat _ (tree_nonneg hw.root_tree), lookup_dir_dot hw.root_dir]
+        rw [run_openat _ hw.root_tree, lookup_dir_dot hw.root_dir]
       refine ⟨.complete w.root, ?_, by rw [hcr]; rfl⟩
       simp only [run_bind'_simp, run_onErr_simp, hc, hcr, ↓reduceIte, ho, run_lift_simp, run_do_pure]
     · refine ⟨.complete st.cur, ?_, rfl⟩
@@ -143,7 +143,7 @@ theorem walk_sim (hw : w.WF) (cfg : Opath.WalkCfg) (hroot : cfg.root = w.root)
           show (if part = Path.dot then st.expected else _) = _
           simp [hpart]
         have ho : Prog.run w (Sys.openat st.cur Path.dot (O_PATH ||| O_NOFOLLOW) 0) = .ok st.cur := by
-          rw [run_openat _ hc0, lookup_dir_dot hk]
+          rw [run_openat _ hct, lookup_dir_dot hk]
         have hm := run_fstatat_tree (w := w) st.cur hct
         have hnd : Path.dot ≠ Path.dotdot := by decide
         have hsy : ({ mode := modeOf (w.kind st.cur), uid := 0, ino := st.cur.toNat } : Sys.Stat).isSymlink = false := by
@@ -171,7 +171,7 @@ theorem walk_sim (hw : w.WF) (cfg : Opath.WalkCfg) (hroot : cfg.root = w.root)
           obtain ⟨hpp, hpk⟩ := hw.parent_path _ _ _ hk hinv
           have hpt := hw.path_tree _ _ hpp
           have ho : Prog.run w (Sys.openat st.cur Path.dotdot (O_PATH ||| O_NOFOLLOW) 0) = .ok (w.parent st.cur) := by
-            rw [run_openat _ hc0, lookup_dir_dotdot hk]
+            rw [run_openat _ hct, lookup_dir_dotdot hk]
           have hc := run_checkCurrent hw _ _ hpp
           have hm := run_fstatat_tree (w := w) _ hpt
           have hsy := not_symlink (w.kind (w.parent st.cur)) 0 (w.parent st.cur).toNat (by rw [hpk]; decide)
@@ -196,14 +196,14 @@ theorem walk_sim (hw : w.WF) (cfg : Opath.WalkCfg) (hroot : cfg.root = w.root)
           | none =>
             rw [hch] at hl
             have ho : Prog.run w (Sys.openat st.cur part0 (O_PATH ||| O_NOFOLLOW) 0) = .error (.os ENOENT) := by
-              rw [run_openat _ hc0, hl]
+              rw [run_openat _ hct, hl]
             refine ⟨.part st.cur remaining (.os ENOENT), ?_, rfl⟩
             simp only [hpart, run_bind'_simp, run_try_simp, ho, Err.isFatal, Bool.false_eq_true, ↓reduceIte,
               Opath.exitPartial, run_lift_simp, run_do_pure]
           | some nxt =>
             rw [hch] at hl
             have ho : Prog.run w (Sys.openat st.cur part0 (O_PATH ||| O_NOFOLLOW) 0) = .ok nxt := by
-              rw [run_openat _ hc0, hl]
+              rw [run_openat _ hct, hl]
             have hnp := hw.child_path _ _ _ _ hch hinv
             have hnt := hw.child_tree _ _ _ hch
             have hm := run_fstatat_tree (w := w) _ hnt
@@ -256,7 +256,7 @@ theorem walk_sim (hw : w.WF) (cfg : Opath.WalkCfg) (hroot : cfg.root = w.root)
                 exact h1
               · simp only [hlk, ↓reduceIte]; exact h2
     · have ho : Prog.run w (Sys.openat st.cur part (O_PATH ||| O_NOFOLLOW) 0) = .error (.os ENOTDIR) := by
-        rw [run_openat _ hc0, lookup_notdir _ hk]
+        rw [run_openat _ hct, lookup_notdir _ hk]
       refine ⟨.part st.cur remaining (.os ENOTDIR), ?_, ?_⟩
       · simp only [run_bind'_simp, run_try_simp, ho, Err.isFatal, Bool.false_eq_true, ↓reduceIte, Opath.exitPartial,
           run_lift_simp, run_do_pure]
